@@ -33,6 +33,9 @@ pub struct Case {
     pub ctor: u8,
     #[serde(default)]
     pub steps: Vec<u8>,
+    /// memory layout of the records handed to linfa, index into `run::LAYOUTS`
+    #[serde(default)]
+    pub layout: u8,
 }
 
 fn classify_build(c: &Case, obs: &mut Obs) {
@@ -57,7 +60,7 @@ fn classify_build(c: &Case, obs: &mut Obs) {
 
 struct Prepared {
     g: Geometry,
-    x: ndarray::Array2<f64>,
+    laid: run::Laid,
 }
 
 fn prepare(c: &Case, obs: &mut Obs) -> Option<Prepared> {
@@ -107,12 +110,52 @@ fn prepare(c: &Case, obs: &mut Obs) -> Option<Prepared> {
         return None;
     }
     obs.class(if g.tie { "tie" } else { "generic" });
-    Some(Prepared { g, x })
+    let laid = run::Laid::new(&x, c.layout);
+    if laid.view() != x {
+        obs.skip("layout_construction_error");
+        return None;
+    }
+    obs.class(laid.name());
+    obs.class_if(!laid.rows_contiguous(), "rows_not_contiguous");
+    Some(Prepared { g, laid })
 }
 
 fn report(obs: &mut Obs, who: &str, v: &Violations) {
     for (sig, msg) in v {
         obs.fail(*sig, format!("{who}: {msg}"));
+    }
+}
+
+const KD_PANIC_CLASSES: [&str; 7] = [
+    "kdtree_panic_accepted:layout_row_major",
+    "kdtree_panic_accepted:layout_column_major",
+    "kdtree_panic_accepted:layout_row_gaps",
+    "kdtree_panic_accepted:layout_strided_both_axes",
+    "kdtree_panic_accepted:layout_reversed_rows",
+    "kdtree_panic_accepted:layout_reversed_columns",
+    "kdtree_panic_accepted:layout_transposed_view",
+];
+
+/// Call into linfa for one index. A panic is a failure, except KdTree's documented panic ("views
+/// should be contiguous") on records whose rows are not contiguous in memory, which is counted.
+fn call_index<T>(obs: &mut Obs, what: &str, index: &str, kd_may_panic: bool, layout: u8, f: impl FnOnce() -> T) -> Option<T> {
+    if index == "KdTree" && kd_may_panic {
+        match vengine::guard(f) {
+            Ok(v) => {
+                obs.class("kdtree_answered_on_noncontiguous_rows");
+                Some(v)
+            }
+            Err(m) if m.contains("views should be contiguous") => {
+                obs.class(KD_PANIC_CLASSES[(layout as usize) % KD_PANIC_CLASSES.len()]);
+                None
+            }
+            Err(m) => {
+                obs.fail(format!("panic:{what}"), format!("{index}: panicked: {m}"));
+                None
+            }
+        }
+    } else {
+        obs.call(what, f)
     }
 }
 
@@ -128,7 +171,7 @@ enum Probed {
     Foreign,
 }
 
-fn probe(c: &Case, x: &ndarray::Array2<f64>, strict: &Density, incl: Option<&Density>, nn: &linfa_nn::CommonNearestNeighbour, name: &str, obs: &mut Obs) -> Probed {
+fn probe(c: &Case, x: ndarray::ArrayView2<f64>, strict: &Density, incl: Option<&Density>, nn: &linfa_nn::CommonNearestNeighbour, name: &str, obs: &mut Obs) -> Probed {
     let incl = match incl {
         Some(i) if c.dim > 0 => i,
         _ => return Probed::Unknown,
@@ -168,10 +211,14 @@ fn probe(c: &Case, x: &ndarray::Array2<f64>, strict: &Density, incl: Option<&Den
 // DBSCAN
 
 fn check_dbscan(c: &Case, obs: &mut Obs) {
-    let Prepared { g, x } = match prepare(c, obs) {
+    let Prepared { g, laid } = match prepare(c, obs) {
         Some(p) => p,
         None => return,
     };
+    let x = laid.view();
+    // KdTree documents a panic for points that are not contiguous in memory: for that index and such
+    // layouts a panic is an accepted outcome (counted); an answer, if one comes, is judged like any other
+    let kd_may_panic = !laid.rows_contiguous();
     let n = g.n;
     classify_build(c, obs);
     let build = run::Build { ctor: c.ctor, steps: &c.steps };
@@ -199,7 +246,7 @@ fn check_dbscan(c: &Case, obs: &mut Obs) {
     let mut results: Vec<Option<Vec<Option<usize>>>> = vec![];
     let mut probed: Vec<Probed> = vec![];
     for (nn, name) in run::INDICES.iter() {
-        let r = obs.call("dbscan", || run::dbscan(&x, c.min_points, c.tol, c.metric, nn.clone(), false, build));
+        let r = call_index(obs, "dbscan", name, kd_may_panic, c.layout, || run::dbscan(x, c.min_points, c.tol, c.metric, nn.clone(), false, build));
         let labels = match r {
             None => {
                 results.push(None);
@@ -228,7 +275,7 @@ fn check_dbscan(c: &Case, obs: &mut Obs) {
             probed.push(Probed::Unknown);
             continue;
         }
-        let pr = probe(c, &x, &strict, incl.as_ref(), nn, name, obs);
+        let pr = probe(c, x, &strict, incl.as_ref(), nn, name, obs);
         probed.push(pr);
         let v = match (pr, &incl) {
             (Probed::Mixed, _) => vec![], // reported by the probe; the run is not judged further
@@ -276,8 +323,8 @@ fn check_dbscan(c: &Case, obs: &mut Obs) {
 
     // the DatasetBase form must return what the array form returns
     if let Some(Some(direct)) = results.get(1) {
-        let r = obs.call("dbscan(dataset)", || {
-            run::dbscan(&x, c.min_points, c.tol, c.metric, run::INDICES[1].0.clone(), true, build)
+        let r = call_index(obs, "dbscan(dataset)", run::INDICES[1].1, kd_may_panic, c.layout, || {
+            run::dbscan(x, c.min_points, c.tol, c.metric, run::INDICES[1].0.clone(), true, build)
         });
         match r {
             Some(Ok(l)) => {
@@ -301,10 +348,14 @@ fn unrecognised(v: &OpticsVerdict) -> usize {
 }
 
 fn check_optics(c: &Case, obs: &mut Obs) {
-    let Prepared { g, x } = match prepare(c, obs) {
+    let Prepared { g, laid } = match prepare(c, obs) {
         Some(p) => p,
         None => return,
     };
+    let x = laid.view();
+    // KdTree documents a panic for points that are not contiguous in memory: for that index and such
+    // layouts a panic is an accepted outcome (counted); an answer, if one comes, is judged like any other
+    let kd_may_panic = !laid.rows_contiguous();
     let n = g.n;
     classify_build(c, obs);
     let build = run::Build { ctor: c.ctor, steps: &c.steps };
@@ -324,7 +375,7 @@ fn check_optics(c: &Case, obs: &mut Obs) {
     let mut runs: Vec<Option<(Vec<OSample>, bool, Probed)>> = vec![];
     let mut lowered_any = false;
     for (nn, name) in run::INDICES.iter() {
-        let r = obs.call("optics", || run::optics(&x, c.min_points, c.tol, c.metric, nn.clone(), build));
+        let r = call_index(obs, "optics", name, kd_may_panic, c.layout, || run::optics(x, c.min_points, c.tol, c.metric, nn.clone(), build));
         let samples = match r {
             None => {
                 runs.push(None);
@@ -350,7 +401,7 @@ fn check_optics(c: &Case, obs: &mut Obs) {
             }
             verdict
         } else {
-            pr = probe(c, &x, &strict, incl.as_ref(), nn, name, obs);
+            pr = probe(c, x, &strict, incl.as_ref(), nn, name, obs);
             match (pr, &incl) {
                 (Probed::Mixed, _) => {
                     // reported by the probe; only "every sample exactly once" is still judged
@@ -611,7 +662,7 @@ fn bridge_case(tier: Tier, allow_tie: bool) -> impl Strategy<Value = Case> {
         any::<u16>(),
         recipe(),
     )
-        .prop_map(move |((o, v, t, ma, mb), extra, keys, dim, metric, min_points, tie, rank, (ctor, steps))| {
+        .prop_map(move |((o, v, t, ma, mb), extra, keys, dim, metric, min_points, tie, rank, (ctor, steps, layout))| {
             let c: P3 = [o[0] * Q, o[1] * Q, o[2] * Q];
             let at = |k: i32| -> P3 { [c[0] + v[0] * Q * k, c[1] + v[1] * Q * k, c[2] + v[2] * Q * k] };
             let mut raw: Vec<P3> = vec![c];
@@ -629,16 +680,18 @@ fn bridge_case(tier: Tier, allow_tie: bool) -> impl Strategy<Value = Case> {
             let l = oracle::dist(&conv(&c), &conv(&at(t)), metric);
             let sel = TolSel { tie, rank, low_biased: true, target: if l > 0.0 { Some(l) } else { None } };
             let tol = choose_tolerance(&pts, metric, &sel);
-            Case { dim, pts, min_points, tol, metric, ctor, steps }
+            Case { dim, pts, min_points, tol, metric, ctor, steps, layout }
         })
 }
 
 /// Builder recipe: constructor kind and a sequence of setter calls (0 tolerance, 1 decoy tolerance,
 /// 2 index, 3 decoy index, 4 dist_fn). The empty recipe is the plain `params_with(..).tolerance(..)`.
-fn recipe() -> impl Strategy<Value = (u8, Vec<u8>)> {
+fn recipe() -> impl Strategy<Value = (u8, Vec<u8>, u8)> {
     (
         prop_oneof![4 => Just(0u8), 2 => Just(1u8), 2 => Just(2u8)],
         prop_oneof![2 => Just(Vec::<u8>::new()).boxed(), 7 => proptest::collection::vec(0u8..=4, 1..=5).boxed()],
+        // memory layout of the records (index into run::LAYOUTS); 0 = ordinary row-major
+        prop_oneof![4 => Just(0u8).boxed(), 6 => (1u8..=6).boxed()],
     )
 }
 
@@ -667,7 +720,7 @@ fn general_case(tier: Tier, allow_tie: bool) -> impl Strategy<Value = Case> {
     let metric = prop_oneof![Just(Metric::L2), Just(Metric::L1), Just(Metric::LInf)];
     let tolsel = (proptest::bool::weighted(if allow_tie { 0.3 } else { 0.0 }), any::<u16>(), proptest::bool::weighted(0.7))
         .prop_map(|(tie, rank, low_biased)| TolSel { tie, rank, low_biased, target: None });
-    (parts, dups, keys, dim, scale, metric, 2usize..=6, tolsel, recipe()).prop_map(move |(parts, dups, keys, dim, scale, metric, min_points, sel, (ctor, steps))| {
+    (parts, dups, keys, dim, scale, metric, 2usize..=6, tolsel, recipe()).prop_map(move |(parts, dups, keys, dim, scale, metric, min_points, sel, (ctor, steps, layout))| {
         let mut raw: Vec<P3> = parts.into_iter().flatten().collect();
         for u in dups {
             if !raw.is_empty() {
@@ -685,7 +738,7 @@ fn general_case(tier: Tier, allow_tie: bool) -> impl Strategy<Value = Case> {
             .map(|p| p.iter().take(dim).map(|&q| (q as f64 / 256.0) * scale).collect())
             .collect();
         let tol = choose_tolerance(&pts, metric, &sel);
-        Case { dim, pts, min_points, tol, metric, ctor, steps }
+        Case { dim, pts, min_points, tol, metric, ctor, steps, layout }
     })
 }
 
@@ -722,6 +775,7 @@ fn small_1d(tier: Tier) -> Vec<Case> {
                     metric: metrics[(k + t) % 3],
                     ctor,
                     steps: steps.to_vec(),
+                    layout: ((k + t + min_points) % run::LAYOUTS.len()) as u8,
                 });
             }
         }
@@ -740,12 +794,13 @@ fn corners(_tier: Tier) -> Vec<Case> {
                     for tol in [0.5, 1.0, 3.0] {
                         let pts: Vec<Vec<f64>> = (0..n).map(|i| (0..dim).map(|j| ((i * (j + 1)) % 5) as f64).collect()).collect();
                         let (ctor, steps) = RECIPES[out.len() % RECIPES.len()];
-                        out.push(Case { dim, pts, min_points, tol, metric, ctor, steps: steps.to_vec() });
+                        let layout = (out.len() % run::LAYOUTS.len()) as u8;
+                        out.push(Case { dim, pts, min_points, tol, metric, ctor, steps: steps.to_vec(), layout });
                     }
                 }
             }
             for (ctor, steps) in RECIPES {
-                out.push(Case { dim: 1, pts: vec![vec![0.0], vec![1.0], vec![-1.0]], min_points, tol: 1.5, metric, ctor, steps: steps.to_vec() });
+                out.push(Case { dim: 1, pts: vec![vec![0.0], vec![1.0], vec![-1.0]], min_points, tol: 1.5, metric, ctor, steps: steps.to_vec(), layout: (out.len() % run::LAYOUTS.len()) as u8 });
             }
         }
     }
